@@ -104,9 +104,42 @@ def parse_fields(payload):
 
 def mutate(sim, payload, prefer=None):
     fields = parse_fields(payload)
-    op = sim.choose(10)
+    op = sim.choose(11)
     if prefer is not None and sim.choose(3) == 0:
         op = prefer
+    if op == 10:         # inside a nested blob (a key or a signature): well framed outside, impossible values inside
+        blobs = []
+        for f in fields:
+            if f[0] in "ts" and f[2] - f[1] > 12:
+                inner = payload[f[1] + 4:f[2]]
+                parts = []
+                i = 0
+                while i + 4 <= len(inner):
+                    L = struct.unpack_from(">I", inner, i)[0]
+                    if L > len(inner) - i - 4:
+                        break
+                    parts.append(inner[i + 4:i + 4 + L]); i += 4 + L
+                if i == len(inner) and len(parts) >= 2:
+                    blobs.append((f, parts))
+        if blobs:
+            f, parts = blobs[sim.choose(len(blobs))]
+            k = 1 + sim.choose(len(parts) - 1)
+            v = parts[k]
+            how = sim.choose(5)
+            if how == 0 and v:
+                v = v[:-1] + bytes([v[-1] ^ 1])          # e.g. an even RSA exponent
+            elif how == 1:
+                v = bytes(len(v))
+            elif how == 2:
+                v = v[:-1]
+            elif how == 3:
+                v = b"\x80" + v[1:] if v else b"\x80"  # negative number / impossible point prefix
+            else:
+                v = b""
+            parts = parts[:k] + [v] + parts[k + 1:]
+            inner = b"".join(struct.pack(">I", len(x)) + x for x in parts)
+            return payload[:f[1]] + struct.pack(">I", len(inner)) + inner + payload[f[2]:], "nested-blob-field"
+        op = 8
     if op == 9:          # framing: the packet around the message (padding length byte, no payload at all)
         kind = ("no-payload", "padding-255", "padding-covers-payload", "padding-equals-length")[sim.choose(4)]
         if kind == "no-payload":
